@@ -13,7 +13,8 @@ from cohdl_testutil import cocotb_util
 
 captured = []
 def fake_run(entity, file, module, **kw):
-    captured.append((entity, module, kw))
+    # compile immediately: parametrised benches change module globals between calls
+    captured.append((entity, module, kw, std.VhdlCompiler.to_string(entity)))
 cocotb_util.run_cocotb_tests = fake_run
 
 index = {}
@@ -44,8 +45,7 @@ for rel in mods:
                             if tn.startswith("test"):
                                 getattr(inst, tn)()
                 ents = []
-                for k, (entity, module, kw) in enumerate(captured):
-                    vhdl = std.VhdlCompiler.to_string(entity)
+                for k, (entity, module, kw, vhdl) in enumerate(captured):
                     out = f"{key}__{k}.vhd" if len(captured) > 1 else f"{key}.vhd"
                     open(os.path.join(HERE, "golden", out), "w").write(vhdl)
                     ents.append({"file": out, "top": entity.__name__, "kw": {a: repr(b) for a, b in kw.items()}})
